@@ -191,6 +191,7 @@ IDENTITY_CALLS = (
     "Option::<T>::as_ref", "Option::<T>::as_deref", "Option::<T>::as_mut", "Option::<&T>::cloned",
     "Option::<&T>::copied", "string::ToString::to_string", "String::as_str", "borrow::ToOwned::to_owned",
     "future::IntoFuture::into_future", "Pin::<Ptr>::new_unchecked", "pin::Pin::<Ptr>::new_unchecked",
+    "B>::into_owned", "borrow::ToOwned::clone_into",
 )
 
 
